@@ -55,7 +55,8 @@ def strdict(sub, max_size=5, hostile=False):
 
 def values(depth=3, width=4, hostile=False):
     # engines that stop at inferred types (LABEL_KEYS on) also get instances of two distinct classes that print alike
-    atoms_ = st.one_of(atoms, atoms, st.sampled_from([["special", "twinA"], ["special", "twinB"], ["list", [["special", "twinA"]]], ["list", [["special", "twinB"]]], ["special", "localBase"], ["list", [["special", "localBase"], ["lit", 0]]]])) if LABEL_KEYS[0] else atoms
+    atoms_ = st.one_of(atoms, atoms, st.sampled_from([["special", "twinA"], ["special", "twinB"], ["list", [["special", "twinA"]]], ["list", [["special", "twinB"]]], ["special", "localBase"], ["list", [["special", "localBase"], ["lit", 0]]],
+                                                    ["special", "cursor"], ["list", [["special", "cursor"], ["lit", 0]]]])) if LABEL_KEYS[0] else atoms
     if depth <= 0:
         return atoms_
     sub = values(depth - 1, width, hostile)
@@ -162,6 +163,8 @@ def build(spec):
             return fxh.NT(1, "x")
         if s == "bytes":
             return b"x"
+        if s == "cursor":
+            return fxh.Cursor()
         if s == "localBase":
             return fxh.make_local_base()
         if s == "twinA":
@@ -177,7 +180,9 @@ def build(spec):
     if k == "dict":
         return {build(a): build(b) for a, b in spec[1]}
     if k == "ddict":
-        d = collections.defaultdict(list)
+        # the declared factory says nothing about the values actually stored: it varies with the content
+        import zlib
+        d = collections.defaultdict([list, int, float, str, None, bytes][zlib.crc32(repr(spec[1]).encode()) % 6])
         for a, b in spec[1]:
             d[build(a)] = build(b)
         return d
